@@ -1,6 +1,6 @@
 (* C13/Examples.v — non-vacuity of every hypothesis used in Properties.v and
    worked examples (RFC 6120 §4.9.3 / §8.3.2 style values). *)
-From XV Require Import lib.Bytes gen.Stanza C13.Xml C13.Model C13.Proofs.
+From XV Require Import lib.Bytes gen.Stanza gen.StanzaAlloc C13.Xml C13.Model C13.Proofs C13.Heap C13.HeapProofs.
 
 Definition idp : jparse := fun s => Some s.
 
@@ -103,3 +103,38 @@ Example ex_result_swaps :
       lattr L_id (str "a<b&""c'"); mkattr (mkname NS_XML L_lang) (str "en")];
    TEnd (mkname NS_CLIENT L_iq)].
 Proof. vm_compute. reflexivity. Qed.
+
+(* histories: two error replies and a stream error are built up front, read
+   in another order and in pieces; every reader delivers its own value *)
+Definition ex_err_a : serror := mkse (str "first.example.net") (str "cancel") (str "item-not-found") [].
+Definition ex_err_b : serror := mkse [] (str "auth") (str "forbidden") [([], str "no <&> entry"); (str "de", str "kein Zutritt")].
+Definition ex_history : list hop :=
+  [HErrReply KIQ ex_iq ex_err_a; HErr ex_err_b [TText (str "x")]; HRead 0 1;
+   HStream (mkste (str "host-gone") [(str "en", str "bye")] []) []; HStart KMessage ex_iq;
+   HRead 1 100; HRead 0 2; HRead 2 100; HRead 0 100; HRead 3 1].
+
+Example ex_history_creations : length (filter is_creation ex_history) = 4.
+Proof. reflexivity. Qed.
+
+Example ex_history_reads :
+  reads_of 0 (snd (run_hist src_origins ex_history)) = error_reply_tokens KIQ ex_iq ex_err_a /\
+  reads_of 1 (snd (run_hist src_origins ex_history)) = error_tokens ex_err_b [TText (str "x")] /\
+  reads_of 2 (snd (run_hist src_origins ex_history)) = stream_error_tokens (mkste (str "host-gone") [(str "en", str "bye")] []) [] /\
+  reads_of 3 (snd (run_hist src_origins ex_history)) = [TStart (start_name KMessage ex_iq) (start_attrs KMessage ex_iq)].
+Proof. repeat split; vm_compute; reflexivity. Qed.
+
+(* in-place append is really modelled: a slice with spare capacity shares its array *)
+Example ex_append_in_place :
+  let (h1, s0) := origin_slice (OFresh 2) [] in
+  let (h2, s1) := sl_append h1 s0 (lattr L_type (str "cancel")) in
+  let (h3, s2) := sl_append h2 s0 (lattr L_type (str "auth")) in
+  sl_read h3 s1 = [lattr L_type (str "auth")] /\ length h3 = 1.
+Proof. vm_compute. split; reflexivity. Qed.
+
+(* and growth beyond the capacity is a new array: the old slice keeps its contents *)
+Example ex_append_grows :
+  let (h1, s0) := origin_slice (OFresh 0) [] in
+  let (h2, s1) := sl_append h1 s0 (lattr L_type (str "cancel")) in
+  let (h3, s2) := sl_append h2 s0 (lattr L_type (str "auth")) in
+  sl_read h3 s1 = [lattr L_type (str "cancel")] /\ sl_read h3 s2 = [lattr L_type (str "auth")] /\ length h3 = 3.
+Proof. vm_compute. repeat split; reflexivity. Qed.
